@@ -68,7 +68,7 @@ def decTimestamp (b : Bytes) : Option (Timestamp × Bytes) :=
       | some (s, r2) => some (⟨t, s⟩, r2)
 
 /-- A byte-string slot (`BstrField.m2i(x) = bytes(x)`, `TypeError → None`): a bstr is taken as it
-    is, CBOR null gives `None`, and — quirk of `bytes(int)` — an unsigned integer `n` gives `n` zero
+    is, CBOR null and a text string give `None`, and — quirk of `bytes(int)` — an unsigned integer `n` gives `n` zero
     octets (so `00` in place of `40` decodes to the empty string; one of the D20 classes).
     Like the machine the code runs on (`MemoryError`), the model refuses the allocation above a
     cap; the harness does not run inputs asking for ≥ 2^17 octets on the implementation. -/
@@ -81,9 +81,12 @@ def decOptBstr (b : Bytes) : Option (Option Bytes × Bytes) :=
     match decUint b with
     | some (n, r) => if n < bstrAllocCap then some (some (List.replicate n 0), r) else none
     | none =>
-      match b with
-      | [] => none
-      | x :: r => if x == 0xf6 then some (none, r) else none
+      match decTstr b with
+      | some (_, r) => some (none, r)     -- a text string: `bytes(str)` raises TypeError → None
+      | none =>
+        match b with
+        | [] => none
+        | x :: r => if x == 0xf6 then some (none, r) else none
 
 /-- Two unsigned integers when `c`, nothing (defaults 0, 0) otherwise (ConditionalField pair). -/
 def decFragPair (c : Bool) (b : Bytes) : Option (Nat × Nat × Bytes) :=
